@@ -113,6 +113,13 @@ class Ctx:
             k = z3.Int('wit!%d' % len(self.witnesses))
             self.witnesses.append(k)
             return f(k)
+        if getattr(self, '_assume', False):
+            # an assumed existential is skolemised; the skolem constant is a
+            # witness candidate for later goals
+            k = self._eng.fresh('sk', z3.IntSort())
+            self._eng.floor_terms.append(k)
+            self._eng.__dict__.setdefault('skolems', []).append(k)
+            return f(k)
         cands = []
         seen = set()
 
@@ -144,7 +151,13 @@ class Ctx:
             for pcx in self.st.pc[-12:]:
                 walk(pcx)
         base += found
-        for b in base[:16]:
+        sk = self._eng.__dict__.get('skolems', [])[-4:]
+        for i, a in enumerate(sk):
+            for b2 in sk[i + 1:]:
+                base += [a + b2, a - b2]
+            for b2 in found[:4]:
+                base += [a + b2, b2 - a]
+        for b in base[:28]:
             for d in (0, 1, -1, 2, -2):
                 add(b + d)
                 add(-b + d)
@@ -433,6 +446,7 @@ class Contract:
                 rk = 'none'
             res = eng.sym_of_kind(rk, 'ret_%s!%d' % (short, next(eng.counter))) if rk != 'none' else NONE
             c2 = Ctx(eng, bound, pre_objs, norm.objs, result=res, st=norm)
+            c2._assume = True
             for name, cl in self.ensures:
                 norm.pc.append(cl(c2))
             outs.append((norm, res))
